@@ -8,6 +8,8 @@ mod lexer;
 #[cfg(test)]
 mod tests;
 mod validator;
+#[cfg(rasn_compiler_verif)]
+pub mod verif_hooks;
 
 use std::{
     borrow::Cow,
